@@ -125,6 +125,12 @@ func CaseFor(w World, base uint64, i int, prop, tier string) *simrt.Case {
 	if c.Config == nil {
 		c.Config = map[string]int64{}
 	}
+	if os.Getenv("VERIF_STALLS") != "" && r.IntN(3) == 0 {
+		// experiment: any task about to take a lock may be held back for a while
+		for k := 0; k < 1+r.IntN(2); k++ {
+			c.Faults = append(c.Faults, simrt.Fault{Kind: "sched.stall", Op: "sched.lock", Nth: r.IntN(300), Count: 1, Arg: int64(1+r.IntN(3000)) * 1e6})
+		}
+	}
 	return c
 }
 
